@@ -1,8 +1,11 @@
 """Generic per-property check: translator -> proofs -> engines -> in-Coq correspondence ->
 direct property oracle -> known findings -> evidence -> verdict."""
 import collections
+import glob
+import importlib
 import json
 import os
+import pkgutil
 import sys
 import time
 
@@ -18,14 +21,49 @@ GLOBAL_TRUSTED = [
 
 
 def _replay_path(prop, seed, n):
-    d = os.path.join(core.VERIF, "replays")
+    d = os.path.join(core.OUTDIR, "replays")
     os.makedirs(d, exist_ok=True)
     return os.path.join(d, "%s-%s-%d.json" % (prop, seed, n))
+
+
+def collect(spec):
+    """Assemble a property's obligations from what is on disk: every coq/props/<id>*.v file and
+    every engine module under vlib/engines whose `serves` lists the property."""
+    prop = spec["id"]
+    spec = dict(spec)
+    from . import engines as engpkg
+    engs = []
+    for m in sorted(pkgutil.iter_modules(engpkg.__path__), key=lambda x: x.name):
+        mod = importlib.import_module("vlib.engines." + m.name)
+        e = getattr(mod, "ENGINE", None)
+        if e and prop in e.get("serves", []):
+            engs.append(e)
+    spec["engines"] = engs
+    pfs = sorted(os.path.relpath(f, core.COQ) for f in glob.glob(os.path.join(core.COQ, "props", prop + "*.v")))
+    spec["props_files"] = pfs
+    targets = [f[:-2] + ".vo" for f in pfs] + ["corr/Common.vo"]
+    for e in engs:
+        if e.get("corr"):
+            targets.append("corr/%s.vo" % e["corr"])
+        targets += e.get("coq_targets", [])
+    spec["coq_targets"] = sorted(set(targets))
+    for k in ("trusted_base", "modelled", "assumptions"):
+        acc = list(spec.get(k, []))
+        for e in engs:
+            for x in e.get(k, []):
+                if x not in acc:
+                    acc.append(x)
+        spec[k] = acc
+    rules = [spec["rule"]] if spec.get("rule") else []
+    rules += ["[%s] %s" % (e["name"], e["rule"]) for e in engs if e.get("rule")]
+    spec["rule"] = " || ".join(rules)
+    return spec
 
 
 def run_property(spec, tier, seed):
     t0 = time.time()
     prop = spec["id"]
+    spec = collect(spec)
     lines = []          # stdout lines (VIOLATION / KNOWN-FINDING)
     violations = []     # dicts
     notes = []
@@ -41,9 +79,22 @@ def run_property(spec, tier, seed):
     targets = spec["coq_targets"]
     mk_ok, mk_log, mk_dt = core.coq_make(targets)
     proof_info = {"make_ok": mk_ok, "make_secs": round(mk_dt, 1), "forbidden_hits": hits}
-    props = {"ok": False, "theorems": [], "discharged": 0, "closed": 0, "axioms": [], "log": ""}
+    props = {"ok": False, "theorems": [], "discharged": 0, "closed": 0, "axioms": [], "log": "", "file": None}
     if mk_ok:
-        props = core.check_props(spec["props_file"])
+        props = {"ok": True, "theorems": [], "discharged": 0, "closed": 0, "axioms": [], "log": "", "file": None}
+        for pf in spec["props_files"]:
+            r = core.check_props(pf)
+            props["theorems"] += r["theorems"]
+            props["discharged"] += r["discharged"]
+            props["closed"] += r["closed"]
+            props["axioms"] += r["axioms"]
+            if not r["ok"]:
+                props["ok"] = False
+                props["log"] += r["log"]
+                props["file"] = props["file"] or pf
+        if not spec["props_files"]:
+            props["ok"] = False
+            props["log"] = "no property file coq/props/%s*.v" % prop
     if hits:
         props["ok"] = False
         props["discharged"] = 0
@@ -52,7 +103,7 @@ def run_property(spec, tier, seed):
         site = core.coq_error_site(mk_log) or {"file": "?", "line": 0, "statement": None}
         proof_broken = {"site": site, "log": mk_log[-2500:]}
     elif not props["ok"]:
-        proof_broken = {"site": {"file": "coq/" + spec["props_file"], "line": 0, "statement": None}, "log": props["log"]}
+        proof_broken = {"site": {"file": "coq/" + str(props.get("file")), "line": 0, "statement": None}, "log": props["log"]}
     if hits:
         proof_broken = proof_broken or {"site": {"file": hits[0], "line": 0, "statement": "forbidden vernacular"}, "log": "\n".join(hits)}
 
@@ -64,11 +115,11 @@ def run_property(spec, tier, seed):
     corr_info = []
     engine_cmds = []
     for eng in spec.get("engines", []):
-        res = core.run_engine(prop, eng, seed, tier)
+        res = core.run_engine(prop, eng, seed, tier, {"VERIF_PROP": prop})
         engine_cmds.append(res["cmd"])
         recs = res["records"]
         cases = [r for r in recs if r.get("t") == "case"]
-        efails = [r for r in recs if r.get("t") == "fail"]
+        efails = [r for r in recs if r.get("t") == "fail" and str(r.get("key", "")).startswith(prop + ":")]
         for r in recs:
             if r.get("t") == "stat":
                 stats[eng["name"] + "." + r["name"]] = r["value"]
@@ -127,7 +178,7 @@ def run_property(spec, tier, seed):
     cov = {
         "obligations": obligations,
         "discharged": props["discharged"],
-        "checker_cmd": "cd coq && make -j%d %s && coqc -Q . L4 %s" % (core.NPROC, " ".join(targets), spec["props_file"]),
+        "checker_cmd": "cd coq && make -j%d %s && for f in %s; do coqc -Q . L4 $f; done" % (core.NPROC, " ".join(targets), " ".join(spec["props_files"])),
         "trusted_base": GLOBAL_TRUSTED + spec.get("trusted_base", []),
         "theorems": props["theorems"],
         "print_assumptions": {"closed_under_global_context": props["closed"], "axioms": props["axioms"]},
@@ -151,8 +202,8 @@ def run_property(spec, tier, seed):
         "coverage": cov, "assumptions": spec.get("assumptions", []),
         "wall_s": round(time.time() - t0, 2), "violations": len(violations),
     }
-    os.makedirs(os.path.join(core.VERIF, "evidence"), exist_ok=True)
-    with open(os.path.join(core.VERIF, "evidence", prop + ".json"), "w") as f:
+    os.makedirs(os.path.join(core.OUTDIR, "evidence"), exist_ok=True)
+    with open(os.path.join(core.OUTDIR, "evidence", prop + ".json"), "w") as f:
         json.dump(ev, f, indent=1, sort_keys=True)
         f.write("\n")
 
